@@ -1,6 +1,7 @@
 package main
 
 import (
+	"context"
 	"database/sql"
 	"encoding/json"
 	"fmt"
@@ -40,7 +41,7 @@ type c17Query struct {
 }
 
 type c17Op struct {
-	Op   string `json:"op"` // open | query | stmt | close | pool | burst
+	Op   string `json:"op"` // open | query | stmt | close | pool | burst | churn | ping | conn | txbegin | txquery | txend | pingchurn
 	H    int    `json:"h"`
 	File int    `json:"file"`
 	Opts string `json:"opts"`
@@ -74,6 +75,11 @@ type c17Result struct {
 	HeldProbes       int      `json:"held_probes"`
 	BadOpens         int      `json:"bad_opens"`
 	ChurnRounds      int      `json:"churn_rounds"`
+	Pings            int      `json:"pings"`
+	Transactions     int      `json:"transactions"`
+	TxOverlaps       int      `json:"tx_overlaps"`
+	RawConns         int      `json:"raw_conns"`
+	PingChurnRounds  int      `json:"ping_churn_rounds"`
 	Done             bool     `json:"done"`
 }
 
@@ -124,14 +130,23 @@ func workerC17(args []string) int {
 				res.Violations = append(res.Violations, fmt.Sprintf(format, a...))
 			}
 		}
-		runQuery := func(hd *handle, qi int, viaStmt bool) {
+		type txh struct {
+			tx *sql.Tx
+			hd *handle
+		}
+		txs := map[int]*txh{}
+		var runQueryVia func(hd *handle, qi int, viaStmt bool, via func(text string) (*sql.Rows, error))
+		runQuery := func(hd *handle, qi int, viaStmt bool) { runQueryVia(hd, qi, viaStmt, nil) }
+		runQueryVia = func(hd *handle, qi int, viaStmt bool, via func(text string) (*sql.Rows, error)) {
 			f := spec.Files[hd.file]
 			q := f.Queries[qi%len(f.Queries)]
 			e := exps[hd.file][qi%len(f.Queries)]
 			var rows *sql.Rows
 			var err error
 			if p, msg, stack := vf.Try(func() {
-				if viaStmt {
+				if via != nil {
+					rows, err = via(q.Text)
+				} else if viaStmt {
 					var st *sql.Stmt
 					st, err = hd.db.Prepare(q.Text)
 					if err == nil {
@@ -389,10 +404,185 @@ func workerC17(args []string) int {
 						add("op %d: after the open/query/close churn on file %d the file is still locked", oi, op.File)
 					}
 				}
+			case "ping":
+				hd := handles[op.H]
+				if hd == nil || hd.closed {
+					continue
+				}
+				var perr error
+				if p, msg, _ := vf.Try(func() { perr = hd.db.Ping() }); p {
+					add("op %d: Ping panicked: %s", oi, msg)
+				} else if perr != nil {
+					add("op %d: Ping on an open handle failed: %v", oi, perr)
+				}
+				hd.used = true
+				res.Pings++
+			case "conn":
+				// one raw connection: ping it, query through it, give it back
+				hd := handles[op.H]
+				if hd == nil || hd.closed {
+					continue
+				}
+				hd.used = true
+				ctx := context.Background()
+				var c *sql.Conn
+				var cerr error
+				if p, msg, _ := vf.Try(func() { c, cerr = hd.db.Conn(ctx) }); p || cerr != nil {
+					add("op %d: Conn: %s %v", oi, msg, cerr)
+					continue
+				}
+				if p, msg, _ := vf.Try(func() { cerr = c.PingContext(ctx) }); p || cerr != nil {
+					add("op %d: PingContext on a raw connection: %s %v", oi, msg, cerr)
+				}
+				runQueryVia(hd, op.Q, false, func(text string) (*sql.Rows, error) { return c.QueryContext(ctx, text) })
+				if p, msg, _ := vf.Try(func() { cerr = c.Close() }); p || cerr != nil {
+					add("op %d: closing a raw connection: %s %v", oi, msg, cerr)
+				}
+				res.RawConns++
+			case "txbegin":
+				hd := handles[op.H]
+				if hd == nil || hd.closed || txs[op.N] != nil {
+					continue
+				}
+				var tx *sql.Tx
+				var terr error
+				if p, msg, _ := vf.Try(func() { tx, terr = hd.db.Begin() }); p || terr != nil {
+					add("op %d: Begin: %s %v", oi, msg, terr)
+					continue
+				}
+				hd.used = true
+				for _, o := range txs {
+					if o.hd.file == hd.file {
+						res.TxOverlaps++
+						break
+					}
+				}
+				txs[op.N] = &txh{tx, hd}
+				res.Transactions++
+			case "txquery":
+				t := txs[op.N]
+				if t == nil {
+					continue
+				}
+				runQueryVia(t.hd, op.Q, false, func(text string) (*sql.Rows, error) { return t.tx.Query(text) })
+			case "txend":
+				t := txs[op.N]
+				if t == nil {
+					continue
+				}
+				delete(txs, op.N)
+				var terr error
+				if p, msg, _ := vf.Try(func() {
+					if op.K == 0 {
+						terr = t.tx.Commit()
+					} else {
+						terr = t.tx.Rollback()
+					}
+				}); p || terr != nil {
+					add("op %d: ending a transaction (rollback=%v): %s %v", oi, op.K == 1, msg, terr)
+				}
+			case "pingchurn":
+				// N goroutines ping and query handle H while three others open, query and close handles on another file
+				hd := handles[op.H]
+				if hd == nil || hd.closed {
+					continue
+				}
+				hd.used = true
+				other := spec.Files[op.File]
+				iters := op.K
+				var wg sync.WaitGroup
+				var mu sync.Mutex
+				fail := func(v string) {
+					mu.Lock()
+					if len(res.Violations) < 5 {
+						res.Violations = append(res.Violations, v)
+					}
+					mu.Unlock()
+				}
+				for g := 0; g < op.N; g++ {
+					wg.Add(1)
+					go func(g int) {
+						defer wg.Done()
+						f := spec.Files[hd.file]
+						for it := 0; it < iters; it++ {
+							qi := (op.Q + g + it) % len(f.Queries)
+							q, e := f.Queries[qi], exps[hd.file][qi]
+							p, msg, _ := vf.Try(func() {
+								if err := hd.db.Ping(); err != nil {
+									fail("ping during open/close churn on another file: " + err.Error())
+									return
+								}
+								rows, err := hd.db.Query(q.Text)
+								switch {
+								case e.want.Err:
+									if err == nil {
+										rows.Close()
+										fail(fmt.Sprintf("query %q must be rejected", q.Text))
+									}
+								case err != nil:
+									fail(fmt.Sprintf("ping+query: query %q failed: %v", q.Text, err))
+								default:
+									got, rerr := readRows(rows)
+									if rerr != nil {
+										fail(rerr.Error())
+									} else if d := compareTables(got, expectedTable(e.want, e.gb)); d != "" {
+										fail(fmt.Sprintf("ping+query: query %q: %s", q.Text, d))
+									}
+								}
+							})
+							if p {
+								fail("ping+query panicked: " + msg)
+								return
+							}
+						}
+					}(g)
+				}
+				for g := 0; g < 3; g++ {
+					wg.Add(1)
+					go func(g int) {
+						defer wg.Done()
+						for it := 0; it < iters; it++ {
+							qi := (op.Q + g + it) % len(other.Queries)
+							q, e := other.Queries[qi], exps[op.File][qi]
+							p, msg, _ := vf.Try(func() {
+								db, err := sql.Open("updog", "file:"+other.Path+op.Opts)
+								if err != nil {
+									fail("sql.Open: " + err.Error())
+									return
+								}
+								defer db.Close()
+								rows, err := db.Query(q.Text)
+								if err == nil {
+									got, rerr := readRows(rows)
+									if rerr == nil && !e.want.Err {
+										if d := compareTables(got, expectedTable(e.want, e.gb)); d != "" {
+											fail(fmt.Sprintf("churn next to ping+query: query %q: %s", q.Text, d))
+										}
+									}
+								} else if !e.want.Err {
+									fail(fmt.Sprintf("churn next to ping+query: query %q failed: %v", q.Text, err))
+								}
+							})
+							if p {
+								fail("churn next to ping+query panicked: " + msg)
+								return
+							}
+						}
+					}(g)
+				}
+				wg.Wait()
+				res.PingChurnRounds++
+				res.Pings += op.N * iters
 			case "close":
 				hd := handles[op.H]
 				if hd == nil || hd.closed {
 					continue
+				}
+				for slot, t := range txs {
+					if t.hd == hd {
+						vf.Try(func() { _ = t.tx.Rollback() })
+						delete(txs, slot)
+					}
 				}
 				var cerr error
 				if p, msg, _ := vf.Try(func() { cerr = hd.db.Close() }); p {
@@ -426,7 +616,11 @@ func workerC17(args []string) int {
 				}
 			}
 		}
-		// wind down: close everything, then every file must be free
+		// wind down: end every transaction, close everything, then every file must be free
+		for slot, t := range txs {
+			vf.Try(func() { _ = t.tx.Rollback() })
+			delete(txs, slot)
+		}
 		for _, hd := range handles {
 			if !hd.closed && len(res.Violations) == 0 {
 				vf.Try(func() { _ = hd.db.Close() })
@@ -471,7 +665,69 @@ func c17GenHistory(rng *rand.Rand, id string, nfiles, nq int) c17History {
 		h.Ops = append(h.Ops, c17Op{Op: op, H: hd, Q: rng.Intn(nq)})
 	}
 	closeH := func(hd int) { h.Ops = append(h.Ops, c17Op{Op: "close", H: hd}) }
-	switch rng.Intn(8) {
+	switch rng.Intn(11) {
+	case 8: // transactions, possibly overlapping, on one handle or on two handles on one file (no connection limit set)
+		f := rng.Intn(nfiles)
+		o := c17OptStrings[rng.Intn(len(c17OptStrings))]
+		hs := []int{open(f, o)}
+		if rng.Intn(2) == 0 {
+			o2 := o
+			if rng.Intn(2) == 0 {
+				o2 = c17OptStrings[rng.Intn(len(c17OptStrings))]
+			}
+			hs = append(hs, open(f, o2))
+		}
+		var openTx []int
+		slot := 0
+		for i := 0; i < 4+rng.Intn(10); i++ {
+			switch {
+			case len(openTx) < 3 && rng.Intn(3) == 0:
+				h.Ops = append(h.Ops, c17Op{Op: "txbegin", H: hs[rng.Intn(len(hs))], N: slot})
+				openTx = append(openTx, slot)
+				slot++
+			case len(openTx) > 0 && rng.Intn(3) == 0:
+				k := rng.Intn(len(openTx))
+				h.Ops = append(h.Ops, c17Op{Op: "txend", N: openTx[k], K: rng.Intn(2)})
+				openTx = append(openTx[:k], openTx[k+1:]...)
+			case len(openTx) > 0 && rng.Intn(2) == 0:
+				h.Ops = append(h.Ops, c17Op{Op: "txquery", N: openTx[rng.Intn(len(openTx))], Q: rng.Intn(nq)})
+			default:
+				q(hs[rng.Intn(len(hs))])
+			}
+		}
+		for _, sl := range openTx {
+			h.Ops = append(h.Ops, c17Op{Op: "txend", N: sl, K: rng.Intn(2)})
+		}
+		for _, hd := range hs {
+			closeH(hd)
+		}
+		// and the file is usable again
+		hd := open(f, o)
+		q(hd)
+		closeH(hd)
+	case 9: // Ping and queries on one handle while handles on another file are opened and closed
+		f := rng.Intn(nfiles)
+		hd := open(f, c17OptStrings[rng.Intn(len(c17OptStrings))])
+		if rng.Intn(2) == 0 {
+			h.Ops = append(h.Ops, c17Op{Op: "ping", H: hd})
+		}
+		h.Ops = append(h.Ops, c17Op{Op: "pingchurn", H: hd, File: (f + 1 + rng.Intn(nfiles-1)) % nfiles, Opts: c17OptStrings[rng.Intn(len(c17OptStrings))], N: 2 + rng.Intn(7), Q: rng.Intn(nq), K: 20 + rng.Intn(60)})
+		q(hd)
+		closeH(hd)
+	case 10: // Ping, raw connections and queries in turn
+		f := rng.Intn(nfiles)
+		hd := open(f, c17OptStrings[rng.Intn(len(c17OptStrings))])
+		for i := 0; i < 3+rng.Intn(6); i++ {
+			switch rng.Intn(3) {
+			case 0:
+				h.Ops = append(h.Ops, c17Op{Op: "ping", H: hd})
+			case 1:
+				h.Ops = append(h.Ops, c17Op{Op: "conn", H: hd, Q: rng.Intn(nq)})
+			default:
+				q(hd)
+			}
+		}
+		closeH(hd)
 	case 6: // open/query/close churn by several goroutines on one data source, possibly next to a live handle
 		f := rng.Intn(nfiles)
 		o := c17OptStrings[rng.Intn(len(c17OptStrings))]
@@ -571,7 +827,7 @@ func c17GenHistory(rng *rand.Rand, id string, nfiles, nq int) c17History {
 }
 
 func runC17(r *vf.Run) {
-	r.Rule("one evaluation = one history over {sql.Open, Query, Prepare+Stmt.Query, SetMaxOpenConns, Close, N goroutines using a fresh handle at once} on 3 index files x 4 option strings, executed in a child built with the race detector; " +
+	r.Rule("one evaluation = one history over {sql.Open, Query, Prepare+Stmt.Query, SetMaxOpenConns, Close, N goroutines using a fresh handle at once, Ping, raw connections, transactions (overlapping, committed or rolled back), Ping+Query next to open/close churn on another file} on 3 index files x 4 option strings, executed in a child built with the race detector; " +
 		"every query's rows are compared with the row oracle, after the last Close on a file an exclusive non-blocking flock on a fresh descriptor must succeed, a hang is decided by classifying the goroutine dump of the watchdog; " +
 		"distinct_nontrivial = distinct histories (operation sequences)")
 	r.Assume("hang verdicts come from goroutine states in the SIGQUIT dump (blocked in bbolt.flock / driver.openFile), not from elapsed time alone", "schedules of the concurrent-first-use bursts are those the runs produced")
@@ -634,6 +890,18 @@ func runC17(r *vf.Run) {
 		ops = append(ops, c17Op{Op: "close", H: 0})
 		all = append(all, c17History{ID: fmt.Sprintf("stress-idle0-%d", i), Ops: ops})
 	}
+	for i := 0; i < r.Pick(3, 10); i++ {
+		o := c17OptStrings[i%len(c17OptStrings)]
+		all = append(all, c17History{ID: fmt.Sprintf("stress-pingchurn-%d", i), Ops: []c17Op{{Op: "open", H: 0, File: i % 3, Opts: o}, {Op: "ping", H: 0},
+			{Op: "pingchurn", H: 0, File: (i + 1) % 3, Opts: c17OptStrings[(i+2)%len(c17OptStrings)], N: 8, Q: i, K: r.Pick(150, 500)}, {Op: "query", H: 0, Q: i}, {Op: "close", H: 0}}})
+	}
+	// overlapping transactions: one handle; two handles with the same options
+	all = append(all,
+		c17History{ID: "tx-overlap-one-handle", Ops: []c17Op{{Op: "open", H: 0, File: 0}, {Op: "txbegin", H: 0, N: 0}, {Op: "txbegin", H: 0, N: 1}, {Op: "txquery", N: 0, Q: 1}, {Op: "txquery", N: 1, Q: 2},
+			{Op: "txend", N: 0, K: 0}, {Op: "txend", N: 1, K: 0}, {Op: "query", H: 0, Q: 3}, {Op: "close", H: 0}, {Op: "open", H: 1, File: 0}, {Op: "query", H: 1, Q: 1}, {Op: "close", H: 1}}},
+		c17History{ID: "tx-overlap-two-handles", Ops: []c17Op{{Op: "open", H: 0, File: 1, Opts: "?preload=true"}, {Op: "open", H: 1, File: 1, Opts: "?preload=true"}, {Op: "txbegin", H: 0, N: 0}, {Op: "txbegin", H: 1, N: 1},
+			{Op: "txquery", N: 1, Q: 4}, {Op: "txend", N: 1, K: 1}, {Op: "txquery", N: 0, Q: 4}, {Op: "txend", N: 0, K: 0}, {Op: "close", H: 0}, {Op: "close", H: 1}}},
+	)
 	for i := 0; i < nh; i++ {
 		id := fmt.Sprintf("h%04d", i)
 		all = append(all, c17GenHistory(r.RNG(id), id, len(spec.Files), 12))
@@ -707,6 +975,11 @@ func runC17(r *vf.Run) {
 				r.Count("lock_probe_saw_held_file", int64(hr.HeldProbes))
 				r.Count("unopenable_data_sources_tried", int64(hr.BadOpens))
 				r.Count("open_query_close_churn_rounds", int64(hr.ChurnRounds))
+				r.Count("pings", int64(hr.Pings))
+				r.Count("transactions", int64(hr.Transactions))
+				r.Count("transactions_overlapping_on_one_file", int64(hr.TxOverlaps))
+				r.Count("raw_connections_used", int64(hr.RawConns))
+				r.Count("ping_next_to_open_close_churn_rounds", int64(hr.PingChurnRounds))
 				r.Max("distinct_file_option_keys_live_at_once", int64(hr.MaxKeysLive))
 				for _, v := range hr.Violations {
 					var hist c17History
@@ -757,6 +1030,8 @@ func runC17(r *vf.Run) {
 	r.Floor("two option strings on one file alive at once", r.GetCount("two_option_overlaps") >= 1)
 	r.Floor(">= 10 concurrent first-use rounds", r.GetCount("concurrent_first_use_rounds") >= 10)
 	r.Floor("lock probes performed", r.GetCount("lock_probes") >= 10)
+	r.Floor("overlapping transactions on one file", r.GetCount("transactions_overlapping_on_one_file") >= 1)
+	r.Floor("Ping next to open/close churn on another file", r.GetCount("ping_next_to_open_close_churn_rounds") >= 1)
 	r.Floor("the lock probe saw a held file (probe works)", r.GetCount("lock_probe_saw_held_file") >= 1)
 }
 
